@@ -97,11 +97,11 @@ impl<A: Actor> Addr<A> {
     }
 
     pub fn running(&self) -> bool {
-        self.running.peek().is_none()
+        !self.stopped()
     }
 
     pub fn stopped(&self) -> bool {
-        self.running.peek().is_some()
+        crate::context::has_stopped(&self.running)
     }
 
     pub async fn call<M: Message>(&self, msg: M) -> Result<M::Response>
